@@ -505,3 +505,59 @@ func vfH_C10_parity_length() {
 	}
 	vfAssert("c10/parity-count", nparity == 0 || nparity == r.p || nparity == 2*r.p)
 }
+
+// C09/C12: one step of the real encoder from an ARBITRARY position in the sequence-id space
+// (symbolic group index, so the wrap point, 2^31 and every other position are one query):
+// a data packet carries the next id, type 0xF1 and size = payload+2, its id sits at a data
+// position of the d+p cycle; when it completes a group the parity packets (if the group was
+// continuous) carry the following ids at parity positions with type 0xF2; either way the next
+// id is the first id of the next group modulo the wrap value, so ids never repeat within a wrap
+// period and types always match positions.
+func vfH_C09_encoder_step() {
+	r := vfPickRatio("ratio")
+	S := uint32(r.d + r.p)
+	enc := newFECEncoder(r.d, r.p, 0)
+	paws := enc.paws
+	vfAssert("enc/paws-is-a-multiple-of-the-group-size", paws%S == 0 && paws > 0xffffffff-S)
+	cnt := vfPick("collected", 0, r.d-1)
+	g := vfU32("group")
+	vfAssume(g < paws/S)
+	enc.next = g*S + uint32(cnt)
+	enc.shardCount = cnt
+	for i := 0; i < cnt; i++ {
+		l := fecHeaderSizePlus2 + 1 + i
+		enc.shardCache[i] = enc.shardCache[i][:l]
+		if l > enc.maxSize {
+			enc.maxSize = l
+		}
+	}
+	enc.tsLatestPacket = vfRecentMilli("tsLatest")
+	l := vfPick("len", 1, 3)
+	b := make([]byte, fecHeaderSizePlus2+l)
+	copy(b[fecHeaderSizePlus2:], vfBytes("pay", l))
+	vfReach("pre")
+	vfBeforeEncode()
+	ps := enc.encode(b, maxFECEncodeLatency)
+	vfReach("post")
+	id := binary.LittleEndian.Uint32(b)
+	vfAssert("enc/data-carries-the-next-id", id == g*S+uint32(cnt))
+	vfAssert("enc/data-type-and-size", vfAnd(binary.LittleEndian.Uint16(b[4:]) == typeData, int(binary.LittleEndian.Uint16(b[6:])) == l+2))
+	vfAssert("enc/data-id-at-a-data-position", id%S < uint32(r.d))
+	vfAssert("enc/id-below-the-wrap-value", id < paws)
+	nextGroup := (g + 1) * S
+	if vfConcreteBool(nextGroup == paws) {
+		nextGroup = 0
+	}
+	if cnt == r.d-1 {
+		vfAssert("enc/parity-all-or-none", len(ps) == 0 || len(ps) == r.p)
+		for k := range ps {
+			pid := binary.LittleEndian.Uint32(ps[k])
+			vfAssert("enc/parity-ids-follow-the-data", pid == g*S+uint32(r.d+k))
+			vfAssert("enc/parity-type-at-a-parity-position", vfAnd(binary.LittleEndian.Uint16(ps[k][4:]) == typeParity, vfAnd(pid%S >= uint32(r.d), pid < paws)))
+		}
+		vfAssert("enc/next-id-starts-the-next-group-modulo-the-wrap", enc.next == nextGroup)
+	} else {
+		vfAssert("enc/no-parity-inside-a-group", len(ps) == 0)
+		vfAssert("enc/next-id-is-the-successor", enc.next == id+1)
+	}
+}
